@@ -254,6 +254,112 @@ def r07f(F):
 	out += P1_who_may_call(F, '07.f', [fn], [MON + 'update_monitor', MONP + 'ChannelMonitor::provide_payment_preimage_unsafe_legacy'], floor=1)
 	return out
 
+def _geq_prev(fu, ex, e, prev_keys, guards_ok, depth=0):
+	"""syntactic proof that expression e >= previous feerate"""
+	if depth > 8:
+		return False
+	k = leaf_key(e)
+	if e[0] in ('ref', 'deref', 'cast'):
+		return _geq_prev(fu, ex, e[1], prev_keys, guards_ok, depth + 1)
+	if k in prev_keys:
+		return True
+	if e[0] == 'call':
+		tail = (e[1] or '').rsplit('::', 1)[-1]
+		if tail == 'max' and len(e[2]) == 2:
+			return _geq_prev(fu, ex, e[2][0], prev_keys, guards_ok, depth + 1) or _geq_prev(fu, ex, e[2][1], prev_keys, guards_ok, depth + 1)
+		if tail in ('saturating_add', 'checked_add', 'wrapping_add') and len(e[2]) == 2:
+			return _geq_prev(fu, ex, e[2][0], prev_keys, guards_ok, depth + 1) or _geq_prev(fu, ex, e[2][1], prev_keys, guards_ok, depth + 1)
+		if tail in ('unwrap_or', 'try_into', 'into', 'unwrap') and e[2]:
+			return _geq_prev(fu, ex, e[2][0], prev_keys, guards_ok, depth + 1)
+	if e[0] == 'bin' and e[1].startswith('Add'):
+		return _geq_prev(fu, ex, e[2], prev_keys, guards_ok, depth + 1) or _geq_prev(fu, ex, e[3], prev_keys, guards_ok, depth + 1)
+	if e[0] == 'local' and e[1] > 0:
+		ds = fu.whole_defs(e[1])
+		return bool(ds) and all(_geq_prev(fu, ex, ex.of_rvalue(d[3]), prev_keys, guards_ok, depth + 1) or (d[0], k) in guards_ok or any((d[0], leaf_key(ex.of_rvalue(d[3]))) == g for g in guards_ok) for d in ds)
+	return False
+
+def r07i(F):
+	"""anchor-channel claims: the target feerate handed to bump events never goes below the previous one"""
+	out = []
+	fn = PKG + 'PackageTemplate::compute_package_feerate'
+	fu = F.func(fn)
+	ex = Expr(fu)
+	# previous feerate = self.feerate_previous (through try_into / unwrap_or)
+	prev_keys = set()
+	for l, nm in fu.vars.items():
+		e = ex.of_local(l)
+		if 'feerate_previous' in leaf_key(e) and e[0] != 'bin':
+			prev_keys.add(leaf_key(e))
+			prev_keys.add(nm)
+	prev_keys.add('self.feerate_previous')
+	gs = [Guard(fu, c) for c in comparisons(fu)]
+	# blocks where "X > previous" is known: (block, key of X)
+	guards_ok = set()
+	for g in gs:
+		if len(g.nf[0]) == 2 and any(v in prev_keys or 'feerate_previous' in v for v in g.nf[0]):
+			o = g.oriented(r'feerate_previous')
+			if o and (o[1], o[2]) in (('Lt', 0), ('Le', -1), ('Le', 0), ('Lt', 1)):
+				xk = [v for v in g.nf[0] if not ('feerate_previous' in v)][0]
+				for d in g.decisions:
+					for b in fu.reach([e[1] for e in d.true_edges], removed_blocks={d.b}) - fu.reach([e[1] for e in d.false_edges], removed_blocks={d.b}):
+						guards_ok.add((b, xk))
+	# the arm in which a previous feerate exists
+	zs = [g for g in gs if g.op in ('Ne', 'Eq') and len(g.nf[0]) == 1 and any('feerate_previous' in v for v in g.nf[0]) and g.nf[2] == 0]
+	if len(zs) != 1:
+		return [Result('07.i', False, 'anchor:previous-feerate-test', 'compute_package_feerate: the `feerate_previous != 0` test was not found', len(gs), where=F.where(fn))]
+	z = zs[0]
+	arm = set()
+	for d in z.decisions:
+		te = d.true_edges if z.op == 'Ne' else d.false_edges
+		fe = d.false_edges if z.op == 'Ne' else d.true_edges
+		arm = fu.reach([e[1] for e in te], removed_blocks={d.b}) - fu.reach([e[1] for e in fe], removed_blocks={d.b})
+	bad = []
+	n = 0
+	for d in fu.defs.get(0, []):
+		bi, si, pl, rv = d
+		if len(pl) != 1 or bi not in arm:
+			continue
+		n += 1
+		e = ex.of_rvalue(rv)
+		if not (_geq_prev(fu, ex, e, prev_keys, guards_ok) or (bi, leaf_key(e)) in guards_ok):
+			bad.append((fu.line_of(bi) if si == 'T' else fu.blocks[bi]['s'][si][0], expr_str(e)[:70]))
+	ok = n >= 3 and not bad
+	out.append(Result('07.i', ok, ('ok:' if ok else 'monotone:') + 'feerate-never-below-previous', 'compute_package_feerate: with a previous feerate, every returned value is the previous feerate, max(previous, ..), previous + previous/4 (saturating, capped by max(.., previous)), or an estimate on the true edge of estimate > previous (%d return values)%s' % (n, '' if not bad else '; not provably >= previous: %s' % bad), n, where=F.where(fn)))
+	return out
+
+def r07h(F):
+	"""our own keys can spend what SpendableOutputs announces: the per-channel signer cache is keyed by channel_keys_id in every arm"""
+	out = []
+	fn = 'lightning::sign::KeysManager::sign_spendable_outputs_psbt'
+	fu = F.func(fn)
+	ex = Expr(fu)
+	signs = fu.call_blocks(lambda p: p.endswith('InMemorySigner::sign_counterparty_payment_input') or p.endswith('InMemorySigner::sign_dynamic_p2wsh_input'))
+	derive = set(sites_call(fu, ['lightning::sign::KeysManager::derive_channel_keys']))
+	cmpid = set()
+	for b, ci in fu.calls():
+		f = norm(ci.get('t') or ci.get('f') or '')
+		if f.endswith('PartialEq::ne') or f.endswith('PartialEq::eq'):
+			fl = set()
+			for a in ci['args']:
+				fl |= expr_leaves(ex.of_operand(a))['fields']
+			if 'channel_keys_id' in fl:
+				cmpid.add(b)
+	if len(signs) < 2 or len(derive) < 2:
+		return [Result('07.h', False, 'anchor:signer-cache', 'sign_spendable_outputs_psbt: signing calls / derive_channel_keys not found (%d/%d)' % (len(signs), len(derive)), where=F.where(fn))]
+	heads = loop_heads(fu)
+	for b in signs:
+		hs = [h for h in heads if b in fu.reach([h]) and h in fu.reach([b])]
+		start = hs if hs else [0]
+		p = fu.path([s2 for h in start for s2 in fu.succ(h)], [b], removed_blocks=cmpid | derive | set(start))
+		nm = norm(fu.blocks[b]['t'][2].get('f') or '').rsplit('::', 1)[-1]
+		out.append(Result('07.h', p is None, ('ok:' if p is None else 'cache:') + 'signer-matches-channel@' + nm, '%s: within one descriptor the cached signer is used only after its channel_keys_id was compared with the descriptor\'s (or a fresh signer was derived)' % nm if p is None else '%s can run with a signer cached for another channel: no channel_keys_id comparison on the path (lines %s) - a sweep of outputs from two channels fails' % (nm, fu.path_lines(p)[:8]), 1, where=F.where(fn, fu.line_of(b))))
+	# the derivation uses the descriptor's own id
+	for b in sorted(derive):
+		a = ex.of_operand(fu.blocks[b]['t'][2]['args'][1])
+		ok = 'channel_keys_id' in expr_leaves(a)['fields']
+		out.append(Result('07.h', ok, ('ok:' if ok else 'shape:') + 'derive-from-descriptor@%d' % sorted(derive).index(b), 'derive_channel_keys is given the descriptor\'s channel_keys_id', 1, where=F.where(fn, fu.line_of(b))))
+	return out
+
 def r07g(F):
 	"""reorganisation boundary shared with C06 / C11: claims tracking survives exactly the blocks that stay"""
 	return chainrules.reorg_boundary(F, '07.g')
@@ -265,5 +371,7 @@ RULES = [
 	('07.d', 'spendable outputs: recorded when seen, announced at maturity; maturity threshold shape', r07d),
 	('07.e', 'counterparty commitment: HTLC outputs claimed by direction / preimage only, no amount or expiry filter', r07e),
 	('07.f', 'a preimage learnt after the close is stored and reaches the claim routines for every commitment that may be on chain', r07f),
+	('07.i', 'anchor claims: compute_package_feerate never returns less than the previous feerate', r07i),
+	('07.h', 'spending our outputs: the cached per-channel signer is checked against the descriptor in every arm', r07h),
 	('07.g', 'reorg boundary: claim tracking keeps exactly the blocks that remain', r07g),
 ]
